@@ -16,6 +16,10 @@ _a, _b = z3.Const("_sca", _SI.sort()), z3.Const("_scb", _SI.sort())
 TH.EXTRA["scommon_def (|a & b| is the number of members of the intersection)"] = z3.ForAll(
     [_a, _b], TH.scommon(_a, _b) == _SI.card()(_si(_a, _b)), patterns=[_SI.card()(_si(_a, _b))])
 
+_su = TH.set_ops(T.INT)[0]
+TH.EXTRA["sjaccard_def (J(a, b) is |a & b| / |a | b|)"] = z3.ForAll(
+    [_a, _b], TH.sjaccard(_a, _b) == TH.RDIV(z3.ToReal(_SI.card()(_si(_a, _b))), z3.ToReal(_SI.card()(_su(_a, _b)))),
+    patterns=[z3.MultiPattern(_SI.card()(_si(_a, _b)), _SI.card()(_su(_a, _b)))])
 FILE = "hypergraphx/measures/edge_similarity.py"
 INTER = "card({x for x in a if x in b})"
 UNION = "(card(a) + card(b) - card({x for x in a if x in b}))"
@@ -26,7 +30,8 @@ CONTRACTS = [
                       "common": lambda eng, p, cx: cx.result.t == TH.scommon(p.env["a"].t, p.env["b"].t)}),
     Contract("jaccard_similarity", FILE, ["jaccard_similarity"], properties=["C10"], params={"a": "Set[Int]", "b": "Set[Int]"}, result="Real", pure=True,
              raises={"ZeroDivisionError": "card(a) == 0 and card(b) == 0"},
-             ensures={"result": f"result == real({INTER}) / real({UNION})"}),
+             ensures={"result": f"result == real({INTER}) / real({UNION})",
+                      "jaccard": lambda eng, p, cx: cx.result.t == TH.sjaccard(p.env["a"].t, p.env["b"].t)}),
     Contract("jaccard_distance", FILE, ["jaccard_distance"], properties=["C10"], params={"a": "Set[Int]", "b": "Set[Int]"}, result="Real", pure=True,
              raises={"ZeroDivisionError": "card(a) == 0 and card(b) == 0"},
              ensures={"result": f"result == 1 - real({INTER}) / real({UNION})"}),
